@@ -386,7 +386,7 @@ Theorem C04_config_conversion_total : forall known g o,
   (exists c x, to_persistent known g o = COk c x) <->
   (existsb is_bad (o_ids o) = false /\
    forallb (fun i => existsb (eqb_bytes i) known)
-     (b_ids (match o_blocked o with Some b => b | None => default_blocked end)) = true).
+     (b_ids (stored_blocked (o_blocked o))) = true).
 Proof. exact to_persistent_total. Qed.
 Print Assumptions C04_config_conversion_total.
 
@@ -395,7 +395,7 @@ Print Assumptions C04_config_conversion_total.
 Theorem C04_config_for_config_total : forall c x,
   let o := for_config c x in
   o_name o = c_name c /\ o_uid o = c_uid c /\ o_tags o = c_tags c /\ o_upstreams o = c_upstreams c /\
-  o_ss o = x_ss x /\ o_blocked o = c_blocked c /\
+  o_ss o = x_ss x /\ o_blocked o = option_map (fun b => written_blocked b (x_nil_sched x)) (c_blocked c) /\
   o_cache_size o = x_cache_size x /\ o_cache_enabled o = x_cache_enabled x /\
   o_use_global_settings o = negb (c_own_settings c) /\ o_filtering o = c_filtering c /\
   o_parental o = c_parental c /\ o_safebrowsing o = c_safebrowsing c /\
@@ -406,16 +406,17 @@ Proof. exact for_config_fields. Qed.
 Print Assumptions C04_config_for_config_total.
 
 Theorem C04_config_section_always_written : forall known g o c x,
-  to_persistent known g o = COk c x -> exists b, o_blocked (for_config c x) = Some b.
+  to_persistent known g o = COk c x ->
+  exists fb, o_blocked (for_config c x) = Some fb /\ fb_ids fb = b_ids (stored_blocked (o_blocked o)).
 Proof. exact for_config_section. Qed.
 Print Assumptions C04_config_section_always_written.
 
 (** Round trip, object level, every field: what forConfig writes for a
-    loaded client (with a uid, without an 8-byte MAC) converts back to exactly
-    that client, for every generated uid; and list level: converting the
+    loaded client (with a uid) converts back to exactly that client, for every
+    generated uid (8-byte MACs included since /repo 5c9e5b4); and list level: converting the
     written section reproduces the list of clients. *)
 Theorem C04_config_roundtrip_object : forall known g g' o c x,
-  to_persistent known g o = COk c x -> c_uid c <> 0 -> no_mac8 c ->
+  to_persistent known g o = COk c x -> c_uid c <> 0 ->
   to_persistent known g' (for_config c x) = COk c x.
 Proof. exact object_roundtrip. Qed.
 Print Assumptions C04_config_roundtrip_object.
@@ -434,23 +435,46 @@ Theorem C04_config_same_records_same_settings : forall ix1 ix2 dhcp id a g,
 Proof. exact same_records_same_settings. Qed.
 Print Assumptions C04_config_same_records_same_settings.
 
-(** The premise "no 8-byte MAC" is needed by the code AS IT IS: such a MAC is
-    written as eight colon groups, which the next start-up reads as an IPv6
-    address (finding C04-config-mac8-reloaded-as-ipv6). *)
-Theorem C04_config_roundtrip_refuted_mac8 :
+(** An 8-byte MAC survives save and restart (before /repo 5c9e5b4 this very
+    object refuted the round trip: the colon text was read as an IPv6 address). *)
+Example C04_config_roundtrip_mac8 :
   exists r r',
     load ex_conf_cfg [] [(0, ex_obj)] = LOk r /\ reload ex_conf_cfg [] 0 r = LOk r' /\
     (exists c, deref (fst r) 7 = Some c /\ c_macs c = [ex_mac8] /\ c_ips c = []) /\
-    (exists c', deref (fst r') 7 = Some c' /\ c_macs c' = [] /\
-                c_ips c' = [([0;2;0;0;0;94;0;16;0;0;0;0;0;0;0;1], [])]).
-Proof. exact roundtrip_refuted_mac8. Qed.
-Print Assumptions C04_config_roundtrip_refuted_mac8.
+    (exists c', deref (fst r') 7 = Some c' /\ c_macs c' = [ex_mac8] /\ c_ips c' = []) /\
+    save r' = save r.
+Proof. exact roundtrip_mac8. Qed.
+
+(** OBSERVATION (no clause of C04 says "never crashes"): a [blocked_services]
+    section without a [schedule] key is stored with a nil schedule, and a
+    request PANICS exactly when the chosen client applies its own blocked
+    services and has such a section. *)
+Theorem C04_config_nil_schedule_panics : forall r dhcp id a,
+  query_panics r dhcp id a = true <->
+  exists u c, acf_find (fst r) dhcp id a = Some u /\ deref (fst r) u = Some c /\
+              c_own_blocked c = true /\ x_nil_sched (extra_of r u) = true.
+Proof. exact query_panics_spec. Qed.
+Print Assumptions C04_config_nil_schedule_panics.
+
+Theorem C04_config_nil_schedule_as_written : forall known g o c x,
+  to_persistent known g o = COk c x ->
+  (x_nil_sched x = true <-> exists fb, o_blocked o = Some fb /\ fb_sched fb = None).
+Proof. exact nil_sched_as_written. Qed.
+Print Assumptions C04_config_nil_schedule_as_written.
+
+Example C04_config_nil_schedule_witness :
+  exists r r',
+    load ex_conf_cfg [] [(0, ex_obj_nil)] = LOk r /\ reload ex_conf_cfg [] 0 r = LOk r' /\
+    query_panics r (fun _ => None) [] ([10;1;2;3], []) = true /\
+    query_panics r' (fun _ => None) [] ([10;1;2;3], []) = true /\
+    query_panics r (fun _ => None) [] ([10;1;2;4], []) = false.
+Proof. exact example_nil_sched. Qed.
 
 (** Premises satisfiable: a client with an absent section and the opt-out,
     identifiers of every kind, loaded, written, read back, written again. *)
 Example C04_config_premises_satisfiable :
   exists c x r r',
-    to_persistent [] 5 ex_obj6 = COk c x /\ c_uid c = 5 /\ c_uid c <> 0 /\ no_mac8 c /\
+    to_persistent [] 5 ex_obj6 = COk c x /\ c_uid c = 5 /\ c_uid c <> 0 /\
     c_own_blocked c = true /\ c_blocked c = Some default_blocked /\
     c_ignore_qlog c = false /\ c_ignore_stats c = true /\
     to_persistent [] 0 (for_config c x) = COk c x /\
